@@ -961,9 +961,25 @@ def run_impl(case):
                     if o["gt"] != _b(wgt) or o["lt"] != _b(wlt):
                         V("class-order", f"{a!r} vs {b!r}: datatype IRI, then language tag, give >:{_b(wgt)} <:{_b(wlt)}; "
                                          f"got >:{o['gt']} <:{o['lt']}", i, j)
+                # `eq` is equality in value space: one datatype (not a string type), one tag, both values carried
+                if a.datatype is not None and a.datatype == b.datatype and str(a.datatype) != XSD + "string" and la == lb \
+                        and a.value is not None and b.value is not None and _vcode(a.value) != "o" and _vcode(b.value) != "o":
+                    stats["eq_value_pairs"] = stats.get("eq_value_pairs", 0) + 1
+                    if o["eq"] != _b(a.value == b.value):
+                        V("eq-value", f"{a!r}.eq({b!r}) is {o['eq']} but the values are {'' if a.value == b.value else 'not '}equal", i, j)
                 f = fams[i]
                 if f is None or isinstance(f, Exception) or fams[j] != f:
                     continue
+                # inside a family of valued literals `<` is Python's `<` on the values; a naive date-time / time comes before an
+                # aware one (the partition `_TOTAL_ORDER_CASTERS` is documented to make)
+                if f[0] != "lex":
+                    va, vb = a.value, b.value
+                    try:
+                        wlt = bool(va < vb)
+                    except TypeError:
+                        wlt = va.utcoffset() is None and vb.utcoffset() is not None
+                    if o["lt"] != _b(wlt):
+                        V("fam-value", f"{a!r} < {b!r} is {o['lt']} but the values order as {_b(wlt)} (family {f[0]})", i, j)
                 stats["fam_pairs_" + f[0]] = stats.get("fam_pairs_" + f[0], 0) + 1
                 back = _op(lambda: b < a)
                 incomparable = o["lt"] == "0" and back == "0"
@@ -1614,7 +1630,7 @@ def shrink(case):
 # ------------------------------------------------------------------ known findings: narrow matchers
 
 _U_ESC = re.compile(r"\\[uU][0-9A-Fa-f]{4}")
-_ORDER_TAGS = {"order-eq", "order-asym", "order-exc", "ops-consistent", "fam-order", "fam-trans", "class-order"}
+_ORDER_TAGS = {"order-eq", "order-asym", "order-exc", "ops-consistent", "fam-order", "fam-trans", "class-order", "fam-value", "eq-value"}
 _SORT_TAGS = {"sort-exc", "sort-repro"}
 
 
